@@ -226,7 +226,10 @@ func runCase(c *run.Ctx, o *run.Outcome) {
 	o.Witness = witness
 
 	if system == "gradle" {
+		o.Count("generator_rejects", 0)
+		o.Count("groovy_parser_accepted", 1)
 		if ok, first := groovyAccepts(b.Text); !ok {
+			o.Count("groovy_parser_accepted", -1)
 			o.Count("generator_rejects", 1)
 			o.SetInconclusive("generated build.gradle rejected by coca's Groovy parser: " + first)
 			return
